@@ -24,7 +24,7 @@
 (*   errors carry IErr) or [t |-> "UNK"] (result outside the specified     *)
 (*   fragment: inexact float, message-dependent value, ...).               *)
 (***************************************************************************)
-EXTENDS Integers, Sequences, FiniteSets, TLC
+EXTENDS Integers, Sequences, FiniteSets, TLC, BigNat
 
 Null      == [t |-> "null"]
 Bool(b)   == [t |-> "bool", b |-> b]
@@ -108,12 +108,27 @@ DecFrac(ds) ==
       m == DigitsVal(digs, 0) * (IF neg THEN -1 ELSE 1)
   IN IF sc >= 0 THEN << m * Pow10(sc), 1 >> ELSE << m, Pow10(-sc) >>
 
-BigVal(v) == DigitsVal(v.d, 0) * (IF v.neg THEN -1 ELSE 1)
+\* value of a big-integer representation that fits; a huge one is replaced by +-10^9 (only its sign and
+\* being out of every small range matters where this is used: clipping of positions, comparison with small floats)
+BigVal(v) == IF Len(Strip(v.d)) > 9 THEN (IF v.neg THEN -1000000000 ELSE 1000000000)
+             ELSE DigitsVal(v.d, 0) * (IF v.neg THEN -1 ELSE 1)
 
 \* finite numbers as fractions
 IsFin(v) == v.t \in {"int", "flt", "nz", "big", "dec"}
 NumP(v) == CASE v.t = "int" -> v.n [] v.t = "flt" -> v.p [] v.t = "nz" -> 0 [] v.t = "big" -> BigVal(v) [] v.t = "dec" -> DecFrac(v.ds)[1]
 NumQ(v) == CASE v.t = "int" -> 1 [] v.t = "flt" -> v.q [] v.t = "nz" -> 1 [] v.t = "big" -> 1 [] v.t = "dec" -> DecFrac(v.ds)[2]
+
+\* integers of any size (BigNat): conversion, classification, results
+IsHuge(v) == v.t = "big" /\ Len(Strip(v.d)) > 9
+ZOf(v) == IF v.t = "int" THEN ZOfInt(v.n) ELSE Z(v.neg, Strip(v.d))
+MkInt(z) == IF ZSmall(z) THEN IntV(ZVal(z)) ELSE BigV(z.neg, z.d)
+SmallInts(x, y) == x.t = "int" /\ y.t = "int" /\ Abs(x.n) < 30000 /\ Abs(y.n) < 30000
+IntAdd(x, y) == IF SmallInts(x, y) THEN IntV(x.n + y.n) ELSE MkInt(ZAdd(ZOf(x), ZOf(y)))
+IntSub(x, y) == IF SmallInts(x, y) THEN IntV(x.n - y.n) ELSE MkInt(ZSub(ZOf(x), ZOf(y)))
+IntMul(x, y) == IF SmallInts(x, y) THEN IntV(x.n * y.n) ELSE MkInt(ZMul(ZOf(x), ZOf(y)))
+IntNeg(x) == MkInt(ZNeg(ZOf(x)))
+IntIsZero(x) == ZOf(x).d = <<>>
+IntSgn(x) == IF IntIsZero(x) THEN 0 ELSE IF ZOf(x).neg THEN -1 ELSE 1
 
 \* does the value contain an internal-error message somewhere?
 RECURSIVE HasIErr(_)
@@ -181,6 +196,9 @@ Cmp(x, y) ==
               ELSE LET lvl(v) == IF v.t = "fsp" THEN (IF v.k = "inf" THEN 2 ELSE 0) ELSE 1
                    IN IF lvl(x) # lvl(y) THEN Sgn(lvl(x) - lvl(y))
                       ELSE IF lvl(x) # 1 THEN 0
+                      ELSE IF x.t \in {"int", "big"} /\ y.t \in {"int", "big"} THEN ZCmp(ZOf(x), ZOf(y))
+                      ELSE IF IsHuge(x) THEN (IF x.neg THEN -1 ELSE 1)
+                      ELSE IF IsHuge(y) THEN (IF y.neg THEN 1 ELSE -1)
                       ELSE Sgn(NumP(x) * NumQ(y) - NumP(y) * NumQ(x))
          [] IsStr(x) -> LexInt(BytesOf(x), BytesOf(y))
          [] x.t = "arr" -> LexVal(x.a, y.a)
@@ -300,7 +318,8 @@ Has(v, k) ==
 -----------------------------------------------------------------------------
 (* arithmetic (manual, "Binary (simple)") *)
 \* numbers whose arithmetic the specification computes exactly (no IEEE special cases)
-PlainNum(v) == v.t \in {"int", "flt", "big"} \/ (v.t = "dec")
+DecNegZero(v) == v.t = "dec" /\ v.ds # <<>> /\ v.ds[1] = 45 /\ NumP(v) = 0
+PlainNum(v) == (v.t \in {"int", "flt", "big"} /\ ~IsHuge(v)) \/ (v.t = "dec")
 
 RECURSIVE RepSeq(_, _)
 RepSeq(s, n) == IF n <= 0 THEN <<>> ELSE s \o RepSeq(s, n - 1)
@@ -332,7 +351,7 @@ SameStrKind(x, y) == (x.t = "str" /\ y.t = "str") \/ (x.t = "bytes" /\ y.t = "by
 Add(x, y) ==
   CASE x.t = "null" -> y
     [] y.t = "null" -> x
-    [] IsInt(x) /\ IsInt(y) -> IntV(NumP(x) + NumP(y))
+    [] IsInt(x) /\ IsInt(y) -> IntAdd(x, y)
     [] IsNum(x) /\ IsNum(y) -> IF PlainNum(x) /\ PlainNum(y) THEN MkFlt(NumP(x) * NumQ(y) + NumP(y) * NumQ(x), NumQ(x) * NumQ(y)) ELSE Unk
     [] SameStrKind(x, y) -> Rewrap(x, Elems(x) \o Elems(y))
     [] x.t = "arr" /\ y.t = "arr" -> ArrV(x.a \o y.a)
@@ -340,22 +359,30 @@ Add(x, y) ==
     [] OTHER -> IFail
 
 Sub(x, y) ==
-  CASE IsInt(x) /\ IsInt(y) -> IntV(NumP(x) - NumP(y))
+  CASE IsInt(x) /\ IsInt(y) -> IntSub(x, y)
     [] IsNum(x) /\ IsNum(y) -> IF PlainNum(x) /\ PlainNum(y) THEN MkFlt(NumP(x) * NumQ(y) - NumP(y) * NumQ(x), NumQ(x) * NumQ(y)) ELSE Unk
     [] x.t = "arr" /\ y.t = "arr" -> ArrV(RemoveAll(x.a, y.a))
     [] OTHER -> IFail
 
 Mul(x, y) ==
-  CASE IsInt(x) /\ IsInt(y) -> IntV(NumP(x) * NumP(y))
-    [] IsNum(x) /\ IsNum(y) -> IF PlainNum(x) /\ PlainNum(y) THEN MkFlt(NumP(x) * NumP(y), NumQ(x) * NumQ(y)) ELSE Unk
-    [] IsStr(x) /\ IsInt(y) -> IF NumP(y) <= 0 THEN Null ELSE Rewrap(x, RepSeq(Elems(x), NumP(y)))
-    [] IsInt(x) /\ IsStr(y) -> IF NumP(x) <= 0 THEN Null ELSE Rewrap(y, RepSeq(Elems(y), NumP(x)))
+  CASE IsInt(x) /\ IsInt(y) -> IntMul(x, y)
+    [] IsNum(x) /\ IsNum(y) -> IF ~(PlainNum(x) /\ PlainNum(y)) \/ DecNegZero(x) \/ DecNegZero(y) THEN Unk
+                               \* IEEE sign of a zero product
+                               ELSE IF NumP(x) * NumP(y) = 0 /\ (NumP(x) < 0 \/ NumP(y) < 0) THEN NZero
+                               ELSE MkFlt(NumP(x) * NumP(y), NumQ(x) * NumQ(y))
+    [] IsStr(x) /\ IsInt(y) -> IF IntSgn(y) <= 0 THEN Null ELSE IF IsHuge(y) \/ NumP(y) > 64 THEN Unk ELSE Rewrap(x, RepSeq(Elems(x), NumP(y)))
+    [] IsInt(x) /\ IsStr(y) -> IF IntSgn(x) <= 0 THEN Null ELSE IF IsHuge(x) \/ NumP(x) > 64 THEN Unk ELSE Rewrap(y, RepSeq(Elems(y), NumP(x)))
     [] x.t = "obj" /\ y.t = "obj" -> ObjU(Merge(x.o, y.o), x.uo \/ y.uo)
     [] OTHER -> IFail
 
 Div(x, y) ==
   CASE IsNum(x) /\ IsNum(y) ->
-         IF ~(PlainNum(x) /\ PlainNum(y)) \/ NumP(y) = 0 THEN Unk   \* IEEE: nan / +-infinite, outside the core fragment
+         IF ~(PlainNum(x) /\ PlainNum(y)) THEN Unk
+         ELSE IF NumP(y) = 0 THEN   \* n / 0 follows IEEE: nan, infinite, -infinite
+                (IF y.t = "dec" /\ y.ds[1] = 45 THEN Unk
+                 ELSE IF NumP(x) = 0 THEN NaN ELSE IF NumP(x) > 0 THEN Inf ELSE NInf)
+         ELSE IF DecNegZero(x) THEN Unk
+         ELSE IF NumP(x) = 0 /\ NumP(y) < 0 THEN NZero        \* IEEE: 0.0 / negative = -0.0
          ELSE MkFlt(NumP(x) * NumQ(y), NumQ(x) * NumP(y))
     [] SameStrKind(x, y) ->
          IF Elems(x) = <<>> THEN ArrV(<<>>)
@@ -368,12 +395,13 @@ Div(x, y) ==
 TRem(a, b) == LET r == Abs(a) % Abs(b) IN IF a < 0 THEN -r ELSE r
 
 Rem(x, y) ==
-  CASE IsInt(x) /\ IsInt(y) -> IF NumP(y) = 0 THEN IFail ELSE IntV(TRem(NumP(x), NumP(y)))
+  CASE IsInt(x) /\ IsInt(y) -> IF IntIsZero(y) THEN IFail
+                               ELSE IF SmallInts(x, y) THEN IntV(TRem(x.n, y.n)) ELSE MkInt(ZRem(ZOf(x), ZOf(y)))
     [] IsNum(x) /\ IsNum(y) -> Unk   \* float remainder: outside the core fragment
     [] OTHER -> IFail
 
 Neg(x) ==
-  CASE IsInt(x) -> IntV(-NumP(x))
+  CASE IsInt(x) -> IntNeg(x)
     [] x.t = "flt" -> IF x.p = 0 THEN NZero ELSE FltV(-x.p, x.q)
     [] x.t = "nz" -> FltV(0, 1)
     [] x.t = "fsp" -> IF x.k = "inf" THEN NInf ELSE IF x.k = "ninf" THEN Inf ELSE Unk
